@@ -6,6 +6,7 @@ import itertools
 from fractions import Fraction
 from typing import Dict, List, Optional, Tuple
 
+from sa.index import AnalysisError
 from sa.canon import canon
 from sa.peval import peval
 from sa.report import Ctx
@@ -245,11 +246,14 @@ class C10:
             kw = callkw(mk[0])
             st, en = ("sub", conv[0], ("const", 0)), ("sub", conv[0], ("const", 1))
             sr = ("attr", ("attr", se, "recording"), "samplerate")
-            ts = ctx.summ.of_func(SEG, "convert_time_to_sample")
+            try:
+                ts = ctx.summ.of_func(SEG, "convert_time_to_sample")
+            except AnalysisError:
+                ts = None  # the one-line converter is gone: whatever replaced it is inlined in the keyword values
 
             def sample_of(t):
                 """resolve convert_time_to_sample(recording, time) -> its body"""
-                if t is not None and t[0] == "call" and t[1] == ("global", f"{SEG}:convert_time_to_sample", "func"):
+                if ts is not None and t is not None and t[0] == "call" and t[1] == ("global", f"{SEG}:convert_time_to_sample", "func"):
                     b, _, _, _ = bind_args(t, ts.params)
                     body = ts.returns[0].term if len(ts.returns) == 1 else None
                     if body is None:
